@@ -1,6 +1,7 @@
 /-
 C10 — execute hands the payload's outcome to the caller and leaves the runtime alone.
 -/
+import CobaldVerif.Generated.Src
 import CobaldVerif.Lemmas.RuntimeInv
 import CobaldVerif.Lemmas.Exec
 
@@ -122,5 +123,23 @@ theorem exec_returns_partial (s : Exec.St) (hnd : s.idsNodup) (hw : s.wellTarget
 -- non-vacuity: three calls in flight (outside -> asyncio, trio -> asyncio, a threading payload run by its caller)
 example : ((Exec.run Exec.St.init [.call 1 5 0, .call 2 1 0, .call 3 6 6, .begin 3, .begin 1, .finish 1, .begin 2]).map
     (fun s => (s.calls.map (·.id), s.opposite, s.wellTargeted, s.canProgress))) = some ([2, 3], false, true, true) := by decide
+
+/-! ### the runtime glue as written in the source
+
+The model of this property was transcribed from these functions of `cobald/daemon/runners/`
+(the path of an `execute` call: `ServiceRunner.execute` -> `MetaRunner.run_payload` -> the runner of the flavour; asyncio hands the coroutine to the loop thread and waits for the future (the outcome travels as a value, `_capture_payload`), trio uses `trio.from_thread.run`, threading calls the payload in the calling thread - the `caller` / `target` threads of `Model/Runtime/Exec.lean` and the `execBegin` / `execEnd` events of the LTS).
+`Gen.runtimePins` is recomputed on every run: the normalised text of every function of the runner
+modules (docstrings, annotations and logging statements dropped) is compared with the text the
+model was last transcribed from (`harness/vh/pins.json`). A changed function breaks this theorem;
+the scenario families are then the search for a failing history. -/
+
+theorem gen_runtime_text :
+    ∀ n ∈ ["service:ServiceRunner.execute",
+     "meta_runner:MetaRunner.run_payload",
+     "asyncio_runner:AsyncioRunner.run_payload",
+     "asyncio_runner:AsyncioRunner._capture_payload",
+     "trio_runner:TrioRunner.run_payload",
+     "thread_runner:ThreadRunner.run_payload"],
+      Gen.pinned n = true := by decide
 
 end Cobald.Props.C10
